@@ -205,15 +205,21 @@ static void add_attr(const char *attr_name, enum xcm_attr_type type,
 	return;
 
     struct ctl_proto_get_all_attr_cfm *cfm = data;
+
+    /* Attributes which do not fit the protocol's limits are left out,
+       as are those for which there is no more room. */
+    if (cfm->attrs_len == CTL_PROTO_MAX_ATTRS ||
+	strlen(attr_name) >= sizeof(cfm->attrs[0].name) ||
+	len > sizeof(cfm->attrs[0].any_value))
+	return;
+
     struct ctl_proto_attr *attr = &cfm->attrs[cfm->attrs_len];
 
     cfm->attrs_len++;
-    ut_assert(cfm->attrs_len < CTL_PROTO_MAX_ATTRS);
 
     strcpy(attr->name, attr_name);
     attr->value_type = type;
 
-    ut_assert(attr->value_len < sizeof(attr->any_value));
     memcpy(attr->any_value, value, len);
     attr->value_len = len;
 }
